@@ -81,8 +81,14 @@ def extra_c20(inp, o, m):
         return "model allocation %d exceeds the proved bound %d" % (ma, b)
     if ga > 4 * ma + 16384:
         return "view decoder allocated %d bytes, model charges %d (limit 4x + 16KiB)" % (ga, ma)
-    if fa > 4 * b + 16384:
-        return "flat decoder allocated %d bytes, bound for this input is %d (limit 4x + 16KiB)" % (fa, b)
+    try:
+        fma, fb = int(dm["fmalloc"], 16), int(dm["fbound"], 16)
+    except (KeyError, ValueError):
+        return "unparsable flat allocation figures"
+    if fma > fb:
+        return "flat model allocation %d exceeds the proved bound %d" % (fma, fb)
+    if d.get("fres") and fa > 4 * fma + 16384:
+        return "flat decoder allocated %d bytes, model charges %d (limit 4x + 16KiB)" % (fa, fma)
     return None
 
 
